@@ -67,6 +67,8 @@ M = [
  ("M49", "C14", [("src/Stream/FileWriter.cpp", "iosOpenMode |= std::ios_base::app | std::ios_base::ate;", "iosOpenMode |= std::ios_base::ate;")], "the original Append-truncates defect re-introduced"),
  ("M51", "C03", [("src/Archive/ClmFile.cpp", "\t\tStream::FileWriter clmFileWriter(archiveFilename);\n", "\t\tconst std::string temporaryFilename = archiveFilename + \".tmp\";\n\t\t{\n\t\tStream::FileWriter clmFileWriter(temporaryFilename);\n"),
                  ("src/Archive/ClmFile.cpp", "\t\t\tclmFileWriter.Write(dataSlice);\n\t\t}\n", "\t\t\tclmFileWriter.Write(dataSlice);\n\t\t}\n\t\t}\n\t\tstd::rename(temporaryFilename.c_str(), archiveFilename.c_str());\n")], "CLM written to <archive>.tmp and renamed into place (an input living at that path is destroyed)"),
+ ("M52", "C13", [("src/Archive/ClmFile.cpp", "\t\tauto slice = clmFileReader.Slice(\n\t\t\tindexEntry.dataOffset,", "\t\tauto slice = clmFileReader.Slice(\n\t\t\tstatic_cast<int>(indexEntry.dataOffset),")], "CLM member stream sliced at a signed 32-bit offset (tracks beyond 2 GiB)"),
+ ("M53", "C05", [("src/Archive/VolFile.cpp", "archiveFileReader.Seek(m_IndexEntries[index].dataBlockOffset);", "archiveFileReader.Seek(static_cast<uint64_t>(static_cast<int>(m_IndexEntries[index].dataBlockOffset)));")], "VOL block header sought at a sign-extended offset (members beyond 2 GiB)"),
  ("M50", "C07", [("src/Map/MapReader.cpp", "if (mapHeader.lgWidthInTiles >= 32 ||", "if (mapHeader.lgWidthInTiles > 32 ||")], "log-width of exactly 32 accepted again"),
 ]
 
